@@ -13,12 +13,13 @@ def configs(tier, seed):
         cfgs.append(dict(kind="cluster", n=n, k=k, model="knn", force=False, K=2, weight=w * 3, wstride=ws))
         cfgs.append(dict(kind="cluster", n=n, k=k, model="knn", force=True, K=2, weight=w * 3, wstride=ws))
     # the real fit() end to end on a symbolic distance table (several clusterings on one graph)
-    e2e = [("uns", 3, 0, 2, [0, 1, 0], []), ("knn", 3, 1, 1, [0, 1, 0], [1])]
+    e2e = [("uns", 3, 0, 2, [0, 1, 0], []), ("knn", 3, 1, 1, [0, 1, 0], [1]), ("knn", 3, 1, 2, [0, 1, 0], [1])]
     if tier == "thorough":
-        e2e += [("uns", 4, 0, 2, [0, 1, 0, 1], []), ("uns", 4, 0, 3, [0, 1, 0, 1], []), ("knn", 3, 1, 2, [0, 1, 0], [1])]
+        e2e += [("uns", 4, 0, 2, [0, 1, 0, 1], []), ("uns", 4, 0, 3, [0, 1, 0, 1], []), ("knn", 3, 1, 2, [0, 0, 1], [1]),
+                ("knn", 4, 1, 2, [0, 1, 1, 0], [1])]
     for model, n, nv, mk, labs, vl in e2e:
         cfgs.append(dict(kind="e2e", model=model, n=n, nv=nv, max_k=mk, labels=labs, vlabels=vl, propagate=(model == "uns"),
-                         weight=(n ** n) * 500 * mk, deadline_s=2400))
+                         logic="fresh", weight=(n ** n) * 500 * mk, deadline_s=2400))
     return cfgs
 
 
